@@ -5,10 +5,10 @@ Lean (Gen/IdGen.lean).
 Accepted shape (after the docstring):
     with self._lock:
         now: int = int(time())
-        if <cond over now, self._last, self._count>:
-            <assignments to self._count / self._last>
+        if <cond over now, self._last, self._count, integer constants of the class>:
+            <assignments to self._count / self._last, possibly ending in a nested if / elif / else of the same kind>
         else:
-            <assignments>
+            <the same>
         if self._urn is not None:
             return '{}_{}_{}'.format(self._urn, A, B)
         else:
@@ -72,12 +72,34 @@ def translate(repo):
     tgt = s0.target if isinstance(s0, ast.AnnAssign) else s0.targets[0]
     nowname = ExprT({}).dotted(tgt)
     env0 = {nowname: 'now', 'self._last': 's.last', 'self._count': 's.count'}
+    # integer constants of the class / module (`_MAX = 99999`) read as `self._MAX`, `BoboGenEventIDUnique._MAX` or `_MAX`
+    for holder, prefixes in ((cls.body, ('self.', 'BoboGenEventIDUnique.')), (tree.body, ('',))):
+        for st in holder:
+            if isinstance(st, (ast.Assign, ast.AnnAssign)) and st.value is not None:
+                t = st.targets[0] if isinstance(st, ast.Assign) else st.target
+                v = st.value
+                if isinstance(v, ast.UnaryOp) and isinstance(v.op, ast.USub) and isinstance(v.operand, ast.Constant):
+                    v = ast.Constant(-v.operand.value)
+                if isinstance(t, ast.Name) and isinstance(v, ast.Constant) and type(v.value) is int:
+                    for pre in prefixes:
+                        env0.setdefault(pre + t.id, f"({v.value})" if v.value < 0 else str(v.value))
     if not isinstance(s1, ast.If):
         raise TieBroken("generate: second statement is not an if")
-    # comparisons mix Int (last, now) only; count is Nat and is only incremented
-    cond = ExprT(env0).tr(s1.test)
-    env_t = _assign_block(s1.body, env0, None)
-    env_e = _assign_block(s1.orelse, env0, None)
+
+    def tree_of(stmts, env):
+        """statements -> nested (cond, then, else) / environment at the leaf; an `if` must be the last statement of its
+        block (anything before it is a sequence of assignments)"""
+        stmts = list(stmts)
+        k = next((i for i, st in enumerate(stmts) if isinstance(st, ast.If)), None)
+        if k is None:
+            return _assign_block(stmts, env, None)
+        if k != len(stmts) - 1:
+            raise TieBroken("generate: statements after a nested if in the state update")
+        env = _assign_block(stmts[:k], env, None)
+        st = stmts[k]
+        # comparisons mix Int (last, now) and Nat (count) only through the literal constants
+        return (ExprT(env).tr(st.test), tree_of(st.body, env), tree_of(st.orelse, env))
+    utree = tree_of([s1], env0)
     # return
     if not isinstance(s2, ast.If) or ast.unparse(s2.test) != 'self._urn is not None':
         raise TieBroken("generate: third statement is not `if self._urn is not None`")
@@ -97,7 +119,10 @@ def translate(repo):
     if [ast.unparse(a) for a in a_some] != [ast.unparse(a) for a in a_none]:
         raise TieBroken("generate: the two returns format different values")
 
-    def branch(env):
+    def branch(env, ind='    '):
+        if isinstance(env, tuple):
+            c, t, e = env
+            return f"if {c} then\n{ind}  {branch(t, ind + '  ')}\n{ind}else\n{ind}  {branch(e, ind + '  ')}"
         o1 = ExprT(env).tr(a_some[0])
         o2 = ExprT(env).tr(a_some[1])
         return f"(⟨{env['self._last']}, {env['self._count']}⟩, ({o1}, {o2}))"
@@ -108,10 +133,7 @@ import BoboVerif.Model.IdGen
 namespace Bobo.Gen.IdGen
 open Bobo.IdGen
 def step (s : St) (now : Int) : St × Out :=
-  if {cond} then
-    {branch(env_t)}
-  else
-    {branch(env_e)}
+  {branch(utree, '  ')}
 end Bobo.Gen.IdGen
 """
     return {OUT: lean}, {SRC + '::BoboGenEventIDUnique.generate': sha(frag)}
